@@ -57,6 +57,9 @@ def gen_scenario(r, sid, masked):
     events, t = [], 0
     time_secs = []
     no_time = r.random() < 0.3          # functions without @time_trigger take a different wait path in the legacy loop
+    rr = random.Random(r.random())      # own stream: the base scenario of a seed stays what it was
+    two = rr.random() < 0.5             # every trigger type declared by two decorators (guards belong to all of them)
+    bursts = rr.random() < 0.5
     while True:
         t += r.choice([1, 1, 2, 3])
         if t >= horizon:
@@ -64,10 +67,17 @@ def gen_scenario(r, sid, masked):
         k = r.random()
         if k < 0.35:
             events.append({"t": t, "k": "set", "e": "a", "s": {"v": r.choice("01"), "x": "p"}})
+            if bursts and r.random() < 0.35:
+                # a burst: the trigger entity changes again before the first notification has been handled
+                # (@state_active must still be judged on each occurrence's own triggering values)
+                v = events[-1]["s"]["v"]
+                for _ in range(r.choice([1, 1, 2])):
+                    v = "1" if v == "0" else "0"
+                    events.append({"t": t, "k": "set", "e": "a", "s": {"v": v, "x": "p"}})
         elif k < 0.5:
             events.append({"t": t, "k": "set", "e": "b", "s": {"v": r.choice("01"), "x": "p"}})
         elif k < 0.7:
-            events.append({"t": t, "k": "fire", "e": "-", "s": {"v": "-", "x": "-"}})
+            events.append({"t": t, "k": "fire", "e": r.choice(["ev1", "ev2"]) if two else "ev1", "s": {"v": "-", "x": "-"}})
         elif k < 0.88 and not no_time:
             events.append({"t": t, "k": "time", "e": "-", "s": {"v": "-", "x": "-"}})
             time_secs.append(t)
@@ -75,13 +85,21 @@ def gen_scenario(r, sid, masked):
             events.append({"t": t, "k": "call", "e": "-", "s": {"v": "-", "x": "-"}})
     return {"sid": sid, "wins": wins, "ho": ho, "sa": sa, "taFirst": (r.random() < 0.5) and not masked,
             "init": {"a": {"v": r.choice("01"), "x": "p"}, "b": {"v": r.choice("01"), "x": "p"}},
-            "events": events, "time_secs": time_secs, "horizon": horizon, "masked": masked}
+            "events": events, "time_secs": time_secs, "horizon": horizon, "masked": masked, "two": two}
 
 
 def source(scn):
+    two = scn.get("two", False)
     decs = ['@state_trigger("pyscript.a")', '@event_trigger("ev1")']
-    if scn["time_secs"]:
-        decs.append("@time_trigger(%s)" % ", ".join('"once(%s)"' % hms(BASE_S + s) for s in scn["time_secs"]))
+    if two:
+        # the second decorator of each type: b's changes become occurrences too (g.wb), events of type ev2 as well
+        decs = ['@state_trigger("pyscript.b")', '@state_trigger("pyscript.a")', '@event_trigger("ev1")', '@event_trigger("ev2")']
+    secs = [scn["time_secs"]]
+    if two and len(scn["time_secs"]) > 1:
+        secs = [scn["time_secs"][0::2], scn["time_secs"][1::2]]
+    for ss in secs:
+        if ss:
+            decs.append("@time_trigger(%s)" % ", ".join('"once(%s)"' % hms(BASE_S + s) for s in ss))
     ta = None
     if scn["wins"] or scn["ho"] != NONE:
         args = ['"%srange(%s, %s)"' % ("not " if w["neg"] else "", hms(w["s"]), hms(w["e"])) for w in scn["wins"]]
@@ -107,16 +125,19 @@ def run_case(scn, legacy):
     async def body(w):
         start = w.loop.time()
         w.take()
-        for ev in scn["events"]:
+        evs = scn["events"]
+        for k, ev in enumerate(evs):
             d = ev["t"] - (w.loop.time() - start)
             if d > 0:
                 await asyncio.sleep(d)
             if ev["k"] == "set":
                 w.hass.states.async_set("pyscript." + ev["e"], ev["s"]["v"], {"x": ev["s"]["x"]})
             elif ev["k"] == "fire":
-                w.hass.bus.async_fire("ev1", {})
+                w.hass.bus.async_fire(ev["e"] if ev["e"] != "-" else "ev1", {})
             elif ev["k"] == "call":
                 await w.hass.services.async_call("pyscript", "callf", {}, blocking=True)
+            if k + 1 < len(evs) and evs[k + 1]["t"] == ev["t"] and ev["k"] == "set" and evs[k + 1]["k"] == "set":
+                continue                    # a burst: the next change is issued before this one has been handled
             await w.settle()
         d = scn["horizon"] + 2 - (w.loop.time() - start)
         if d > 0:
@@ -129,7 +150,7 @@ def run_case(scn, legacy):
     runs = [{"t": int(round((BASE_S + tt) * 1000)), "k": str(a[1])} for (tt, a) in res["recs"]]
     g = {"sa": scn["sa"]["tree"] if scn["sa"] else {"k": "none"},
          "ta": [{"neg": w["neg"], "s": (w["s"] % 86400) * 1000, "e": (w["e"] % 86400) * 1000} for w in scn["wins"]],
-         "ho": NONE if scn["ho"] == NONE else scn["ho"] * 1000, "taFirst": scn["taFirst"]}
+         "ho": NONE if scn["ho"] == NONE else scn["ho"] * 1000, "taFirst": scn["taFirst"], "wb": bool(scn.get("two", False))}
     return {"id": "%s/%s" % (scn["sid"], "legacy" if legacy else "dm"), "g": g, "init": scn["init"],
             "events": [{"t": (BASE_S + e["t"]) * 1000, "k": e["k"], "e": e["e"], "s": e["s"]} for e in scn["events"]],
             "runs": runs, "legacy": legacy, "masked": scn["masked"], "scn": scn}
